@@ -348,6 +348,12 @@ impl<'e> EventLoop<'e> {
     }
 
     unsafe fn resume(&self, token: u64) {
+        #[cfg(feature = "verif")]
+        crate::verif::observe(
+            "loop_resume",
+            token,
+            u64::from(COROUTINE_TOKENS.contains(&token)),
+        );
         if COROUTINE_TOKENS.remove(&token).is_none() {
             return;
         }
@@ -419,6 +425,12 @@ impl<'e> EventLoop<'e> {
                     .unwrap_or_else(|| panic!("bean {bean_name} not exist !")),
             ))
         }
+    }
+
+    #[cfg(all(feature = "verif", unix))]
+    pub(super) fn selector_fd(&self) -> c_int {
+        use std::os::fd::AsRawFd;
+        self.selector.as_raw_fd()
     }
 
     fn get_thread_name(&self) -> String {
